@@ -105,6 +105,14 @@ CHECKS.update({
         "decode deviation, recorded scale and level, and refusal of oversized magnitudes and invalid scales.", ref="DESIGN.md 4/C12",
    note=ARITH_NOTE + " The double-precision FFT is not modelled; general vectors are covered by consistency and decode(encode(v)) = v only."),
 })
+CHECKS.update({
+ "C07": dict(cat="model_checking", tech="trace validation (impl->spec): every budget event (phase residues computed by the harness without the Decryptor) is judged by TLC against spec/Budget.tla on exact integers (BigNat): CRT certificate, centred noise, bit length, budget equality and the fresh / negate / k-ary / threshold rules",
+   text="~450 (quick) / ~2500 (thorough) ciphertexts produced by small programs: fresh pk / sk / seeded encryptions (random plaintexts and, for plain moduli of 41 and 51 bits, coefficients chosen so that the plaintext scaling carries into its high word), "
+        "encryptions of zero at every level, negation, add_many and subtraction chains of 2..5 (2..8) operands, mixed sizes, multiplication chains with relinearization and modulus switching down to zero budget; BFV and BGV, N = 4..16, 1..7 primes of 20..60 bits. "
+        "TLC recomputes the noise integer of every coefficient from the certified phase, its maximum bit length and the budget, demands equality with the reported value, the fresh lower bound 2t(21(2N+1)+2), budget preservation under negation, "
+        "the ceil(log2 k)+1 rule and exact decryption whenever the true noise t*x - Q*m is below Q/2.", ref="DESIGN.md 4/C07",
+   note=ARITH_NOTE + " The secret key is brought to coefficient form with the library's inverse NTT (decided by C09); the BGV threshold clause is not evaluated (the BGV noise integer depends on the correction factor bookkeeping decided by C02/C05)."),
+})
 NA_REASON = "check not built yet in this round (work in progress; see DESIGN.md section 8)"
 EXTRA = os.path.join(ROOT, "lib", "manifest_extra.json")
 
